@@ -105,9 +105,22 @@ def accepts(spec, tok):
     return ('rej', type(e).__name__)
 
 
+# Targeted spec pairs beyond the depth-2 grammar: a default under an inherited range, a frozen container default, a constant
+# key under a base's dynamic key, frozen / Bool / noneable candidates of unions.
+EXTRA_SPECS = [
+    ('default', ('int', None, None), 5), ('int', None, 3),
+    ('frozen', ('list', ('int', None, None), 0, None), ('L', 10)), ('list', ('int', None, 3), 0, None),
+    ('dict', (('k1', ('int', None, None)),)), ('ddict', 'k.*', ('int', None, 3)),
+    ('union', (('frozen', ('int', None, None), 1), ('str',))),
+    ('union', (('int', 2, None), ('bool',))), ('bool',),
+    ('union', (('int', None, None), ('str',), ('float', None, None))), ('noneable', ('union', (('int', None, None), ('str',)))),
+]
+
+
 def universe(ctx):
   depth = 2
   g = S.grammar(depth, wide=ctx.thorough)
+  g = g + [d for d in EXTRA_SPECS if d not in g]
   toks = []
   seen = set()
   for d in g:
@@ -261,6 +274,18 @@ def pair_item(rec, i):
                f'{a_d!r}.extend({b_d!r}) succeeded giving {c2!r}, which accepts {bad!r} that the base rejects',
                dict(kind='pair', a=a_d, b=b_d, value=bad))
       continue
+    # the extension's own default (inherited constraints included) is acceptable to it
+    try:
+      if c2.has_default and not (pg.MISSING_VALUE == c2.default) and 'MISSING_VALUE' not in repr(c2.default) and not c2.frozen:
+        probe = c2.clone(deep=True) if hasattr(c2, 'clone') else copy.deepcopy(c2)
+        try:
+          probe.apply(copy.deepcopy(c2.default))
+        except REJ as e:
+          rec.viol(f'L2-extension-rejects-its-default/{kind2(a_d)}~{kind2(b_d)}',
+                   f'{a_d!r}.extend({b_d!r}) = {c2!r} rejects its own default {c2.default!r}: {type(e).__name__}', dict(kind='pair', a=a_d, b=b_d))
+          continue
+    except Exception:  # pylint: disable=broad-except
+      pass
     try:
       if not adds_keys and not S.mk(b_d).is_compatible(c2):
         cause = ('enum-extends-number' if enum_extends_number(a_d, b_d) else
